@@ -47,6 +47,7 @@ type RaftGroup struct {
 	raftLeaderId  uint64
 	wal           wal.WAL
 	log           *log.Entry
+	done          chan struct{}
 }
 
 func startRaftNode(id uint64, nodeIds []uint64, storage wal.WAL, logger *log.Entry) (etcdRaft.Node, error) {
@@ -141,13 +142,21 @@ func (this *RaftGroup) Start() error {
 			return err
 		}
 	}
-	go this.run()
+	this.done = make(chan struct{})
+	go func() {
+		defer close(this.done)
+		this.run()
+	}()
 	return nil
 }
 
 func (this *RaftGroup) Stop() {
 	this.raft.Stop()
 	this.ctxCancel()
+	if this.done != nil {
+		// Wait for the loop to finish the Ready it is handling: callers delete the group's log next
+		<-this.done
+	}
 
 	if err := this.transport.removeGroup(this.id); err != nil {
 		this.log.Error(err)
